@@ -242,6 +242,13 @@ def oracle(w):
         sw_rstack = any(p == "F=K:2:11" for p in prims)
         other_code = [p for p in prims if (p.startswith("F=K:2:") and p != "F=K:2:11") or (p.startswith("F=E:2:") and p != "F=E:2:11")]
         loss = any(p in ("L1", "L0", "E") for p in prims)
+        # completeness: the software-reset acknowledgement, arriving by itself while reset requests wait on an intact connection,
+        # completes them - all of them, there and then
+        if prims == ["F=K:2:11"] and waiting and not lost:
+            missing = [c for c in sorted(waiting) if f"RD{c}:ok" not in entries]
+            if missing:
+                return (f"the software-reset RSTACK arrived while reset request(s) {sorted(waiting)} were waiting, but {missing} did not complete "
+                        f"(entries {entries}, state {st})")
         for e in entries:
             if e.startswith("RD") and e.endswith(":ok"):
                 c = int(e[2:].split(":")[0])
@@ -304,6 +311,10 @@ def cases(ctx):
             cs.append((0, 0, ["P"] + waiter + [loss]))
             cs.append((4, 3, waiter + ["P", loss]))
             cs.append((0, 0, ["P"] + waiter[:-1] + [waiter[-1], "F=A:0:0:0+" + loss]))
+    # a reset that nobody ever acknowledged (it timed out), then a new one: acknowledged in time, it completes
+    for tx in range(8):
+        cs.append((tx, (tx * 3) % 8, ["R=1", "T", "R=2", "F=K:2:11"]))
+        cs.append((tx, 0, ["R=1", "T", "R=2", "W=3000", "F=K:2:11"]))
     # a reset abandoned by its caller, then a new one: the new request has its own full timeout and is completed by its own RSTACK
     for w1 in (300, 2000, 4500):
         for w2 in (100, 1500):
